@@ -88,6 +88,10 @@ def scribble(x):
         call(x.pop)
     f = Atoms(elements=['He', 'Ne'], positions=[(9.0, 9.0, 9.0), (9.5, 9.0, 9.0)], bonds=[(0, 1)], bond_types=[0], charges=[0.25, -0.25], groups=[6, 6])
     call(x.extend, f)
+    # a fragment that brings extra per-atom / per-bond columns the object does not have yet
+    g = Atoms(elements=['Ar', 'Kr'], positions=[(8.0, 9.0, 9.0), (8.5, 9.0, 9.0)], bonds=[(0, 1)], bond_types=[0], extra_atom_labels=['_scribble_site'], extra_atom_fields=[('s0',), ('s1',)],
+              extra_bond_labels=['_scribble_bond'], extra_bond_fields=[('b0',)])
+    call(x.extend, g)
     call(x.translate, np.array([-0.11, 0.05, 0.5]))
 
 
